@@ -55,6 +55,9 @@ def check_from_str(inst, V, ctx, body, feature, okv):
     paths = S.simple_paths(body)
     loops = body.loops()
     if not loops:
+        r = adaptor_form(inst, V, ctx, body, paths, okv, bad, spec)
+        if r is not None:
+            return True if r else None
         # ---- match mode: ordered equality chain
         order = []      # [(const bytes, result ident)] in test order
         fail_seen = False
@@ -198,8 +201,13 @@ def check_from_str(inst, V, ctx, body, feature, okv):
         ident_value = {v['ident']: v['value'] for v in inst.S}
         for j in range(N):
             results[j] = ident_value.get(vt[1][j][2])
+    return finish_table(inst, ctx, tnames, results, spec, bad, fail_seen)
+
+def finish_table(inst, ctx, tnames, results, spec, bad, fail_seen):
+    """a first-match search of the name table that returns results[j] for a match at index j"""
+    by_value = {v['value']: v['ident'] for v in inst.S}
     got = {}
-    for j in range(N):
+    for j in range(len(tnames)):
         if tnames[j] in got:
             continue
         r = results[j]
@@ -207,6 +215,99 @@ def check_from_str(inst, V, ctx, body, feature, okv):
             bad('index', 'a match at name-table index %d (%r) yields transmute(%r), which is not a declared discriminant' % (j, tnames[j].decode('utf8', 'replace'), r), cls='/invalid'); return None
         got[tnames[j]] = by_value[r]
     return compare(inst, ctx, got, spec, bad, fail_seen)
+
+IT_POSITION = 'core::iter::traits::iterator::Iterator::position'
+
+def adaptor_form(inst, V, ctx, body, paths, okv, bad, spec):
+    """`match Iterator::position(&mut NAMES.iter(), |n| s == *n) { Some(i) => Some(transmute(i + MIN)), None => None }` and
+    `match Iterator::find(&mut ENUMS.iter().zip(NAMES.iter()), |(_, n)| s == **n) { Some((e, _)) => Some(*e), None => None }`:
+    both adaptors return the first element, in table order, whose predicate holds - the same first-match search as the loop form.
+    Returns None when the body is not of this form (the caller goes on with its other readings), else the verdict."""
+    arg = ('arg', 0)
+    call = None
+    arms = {}
+    for path, kind, nxt in paths:
+        gs = S.path_guards(body, path)
+        if len(gs) != 1 or gs[0][1][0] != 'sw' or gs[0][1][1][0] != 'discr':
+            return None
+        c = V.strip(gs[0][1][1][1])
+        if c[0] != 'call' or c[1] not in (IT_POSITION, S.IT_FIND) or c[4] is None:
+            return None
+        if call is None:
+            call = c
+        elif call != c:
+            return None
+        arm = S.option_arm(gs[0][1])
+        if arm is None:
+            if kind == 'unreachable':
+                continue
+            return None
+        if kind != 'return' or arm in arms:
+            return None
+        arms[arm] = S.resolve_phi(S.path_return(body, path), path)
+    if call is None or set(arms) != {'Some', 'None'}:
+        return None
+    src = V.iter_source(call[2][0])
+    clo = V.strip(call[2][1])
+    if clo[0] != 'agg' or not clo[1].startswith('closure|') or len(clo[2]) != 1 or peel(V, clo[2][0]) != arg:
+        bad('shape', 'the predicate of %s captures something other than the argument string' % call[1].split('::')[-1], 'unrecognised'); return False
+    cp = clo[1].split('|', 1)[1]
+    cb = V.I.body(cp) if hasattr(V.I, 'body') else None
+    alts = cb.ret_alternatives() if cb is not None else []
+    if len(alts) != 1 or cb.loops():
+        bad('shape', 'the predicate of the search is not a single comparison', 'unrecognised'); return False
+    e = str_eq(V, alts[0][1])
+    if e is None:
+        bad('shape', 'the predicate of the search is %s, required a string equality' % show(alts[0][1]), 'unrecognised'); return False
+    env_s = ('field', ('deref', ('arg', 0)), 0)
+    def is_env(t):
+        return t == env_s or (t[0] == 'field' and t[2] == 0 and peel(V, t[1]) == ('arg', 0))
+    if call[1] == IT_POSITION:
+        if not (src and src[0] == 'tab' and src[1][0] == 'T2' and src[2] == 'slice'):
+            bad('shape', 'position() is not taken over the name table: %r' % (src,), 'unrecognised'); return False
+        t2 = src[1][1]
+        elem_ok = lambda t: t == ('arg', 1)
+    else:
+        if not (src and src[0] == 'zip' and src[1][0] == 'tab' and src[2][0] == 'tab' and src[1][1][0] == 'T3' and src[2][1][0] == 'T2'):
+            bad('shape', 'find() is not taken over zip(variant table, name table): %r' % (src,), 'unrecognised'); return False
+        t2, t3 = src[2][1][1], src[1][1][1]
+        elem_ok = lambda t: t[0] == 'field' and t[2] == 1 and peel(V, t[1]) == ('arg', 1)
+    a, b = e
+    if not ((is_env(a) and elem_ok(b)) or (is_env(b) and elem_ok(a))):
+        bad('shape', 'the predicate compares %s with %s, required the argument with the name of the element' % (show(a), show(b)), 'unrecognised'); return False
+    if not is_fail(arms['None'], okv):
+        bad('reject', 'when no name matches the function returns %s' % show(arms['None'])); return False
+    names_tab = V.F.try_fold(('named', t2))
+    if names_tab is None or names_tab[0] != 'array':
+        bad('shape', 'name table does not fold', 'unrecognised'); return False
+    tnames = [x[1] for x in names_tab[1]]
+    N = len(tnames)
+    val = arms['Some']
+    if not S.is_some(val, okv):
+        bad('shape', 'on a match the function returns %s' % show(val), 'unrecognised'); return False
+    p = S.payload(val)
+    hit = ('field', ('downcast', call, 'Some'), 0)
+    results = [None] * N
+    if call[1] == IT_POSITION:
+        if p[0] != 'transmute' or p[1] != inst.enum_path:
+            bad('shape', 'on a match the function returns %s' % show(val), 'unrecognised'); return False
+        try:
+            f = eval_affine(p[2], hit, PA.ident([(0, N - 1)], 'usize'), V.F, inst.crate.pointer_bits, None)
+        except (NotAffine, TooManyPieces) as ex:
+            bad('shape', 'index to discriminant conversion is not a supported integer expression (%s): %s' % (ex, show(p[2])), 'unrecognised'); return False
+        for j in range(N):
+            results[j] = f.at(j)
+    else:
+        q = peel(V, p)
+        if not (q[0] == 'field' and q[2] == 0 and peel(V, q[1]) == hit):
+            bad('shape', 'on a match the function returns %s' % show(val), 'unrecognised'); return False
+        vt = V.F.try_fold(('named', t3))
+        if vt is None or vt[0] != 'array' or len(vt[1]) != N:
+            bad('zip', 'variant table and name table have different lengths or do not fold'); return False
+        ident_value = {v['ident']: v['value'] for v in inst.S}
+        for j in range(N):
+            results[j] = ident_value.get(vt[1][j][2])
+    return bool(finish_table(inst, ctx, tnames, results, spec, bad, True))
 
 def compare(inst, ctx, got, spec, bad, fail_seen):
     if not fail_seen:
